@@ -24,10 +24,10 @@ def mutate(text, cause, rnd):
     if cause == "none":
         k = rnd.randrange(3)
         if k == 0:     # a very long line (generated tables, embedded data) in the epilogue: part of the text like any other
-            return text + "// " + "0123456789abcdef" * 400 + "\nvar vhTail = 1\n"
+            return text + "// 100% of " + "0123456789abcdef" * 400 + "\nvar vhTail = 1 // %d %s %v\n"
         if k == 1:     # ... or in the prologue
             return text.replace("%{\n", "%{\n// " + "fedcba9876543210" * 300 + "\n", 1)
-        return text
+        return text + "// the last 5% of the file: %d items\n"
     if cause == "lexical":
         k = rnd.randrange(5)
         if k == 0:
